@@ -1603,6 +1603,9 @@ func (ls *LState) GetInfo(what string, dbg *Debug, fn LValue) (LValue, error) {
 				dbg.Source = f.Proto.SourceName
 				dbg.LineDefined = f.Proto.LineDefined
 				dbg.LastLineDefined = f.Proto.LastLineDefined
+			} else {
+				// a Go function is defined on no line (ldebug.c funcinfo: -1; 0 is a main chunk)
+				dbg.LineDefined, dbg.LastLineDefined = -1, -1
 			}
 		case 'l':
 			if !f.IsG && dbg.frame != nil {
